@@ -23,6 +23,7 @@ from jax2onnx.plugins._ir_shapes import (
 )
 from jax2onnx.plugins._loop_extent_meta import get_axis0_override, set_axis0_override
 from jax2onnx.plugins._axis0_utils import ensure_axis0_extent, _static_dim_as_int
+from jax2onnx.utils.shape_poly import is_symbolic_dim
 from jax2onnx.plugins.jax.lax._index_utils import _const_i64
 from jax2onnx.ir_utils import const_value_to_numpy, ir_dtype_to_numpy, tensor_to_numpy
 from jax2onnx.converter.ir_optimizations import _get_attr as _iro_get_attr
@@ -368,8 +369,14 @@ class BroadcastInDimPlugin(PrimitiveLeafPlugin):
             else None
         )
 
+        # A symbolic target extent (e.g. the batch symbol B) can never be
+        # described by a static axis-0 hint that another op left on the operand.
+        target_axis0_symbolic = bool(shape) and is_symbolic_dim(shape[0])
+
         def _override_compatible(candidate: Any) -> bool:
             if not isinstance(candidate, (int, np.integer)):
+                return False
+            if target_axis0_symbolic:
                 return False
             cand_int = int(candidate)
             if cand_int <= 0:
@@ -669,7 +676,12 @@ class BroadcastInDimPlugin(PrimitiveLeafPlugin):
                     )
                     if val is not None
                     if (
-                        _override_compatible(val) or (carry_singleton_axis0 and val > 1)
+                        _override_compatible(val)
+                        or (
+                            carry_singleton_axis0
+                            and val > 1
+                            and not target_axis0_symbolic
+                        )
                     )
                 ),
                 None,
